@@ -85,6 +85,7 @@ class Guard:
         self.opaque = set()
         self.relations = set()
         self.full = Region.full(f_integer, unsigned=f_integer)
+        self.depth = 0
         self.lossy_locals = {}   # local id -> conversion name: bound to a narrowed copy of a parameter
         self.lossy_tests = set()  # (path, conversion): a range test evaluated on a narrowed copy
 
@@ -434,6 +435,9 @@ class Guard:
                         for b in pat_bindings(s["pat"]):
                             self.lossy_locals[b["local"]] = cv
                     return inp
+                i0 = strip(init)
+                if i0.get("k") == "Match" and i0.get("src") == "TryDesugar":
+                    return self.try_helper(i0, inp)
                 self.effect(init)
             return inp
         if kk == "If":
@@ -464,8 +468,7 @@ class Guard:
                 rest = rest.minus(m)
             return out if not unknown else inp.minus(self.err)
         if kk == "Match" and s["src"] == "TryDesugar":
-            self.effect(s)
-            return inp
+            return self.try_helper(s, inp)
         if kk == "Ret":
             self.run_value(s["e"], inp)
             return Region.empty(self.integer)
@@ -486,6 +489,67 @@ class Guard:
                 rest = self.run_stmt(n["e"], rest)
             return rest
         return self.run_stmt(n, inp)
+
+    def try_helper(self, m, inp):
+        """`helper(..)?` where helper is a function of the same crate that validates (part of) the same parameters
+        (`self.ensure_ranges()?`, `self.0.validate()?`): its rejected region is computed from its own body and removed
+        from the inputs that continue. Anything else is an opaque fallible sub-check."""
+        sc = strip(m["scrut"])
+        inner = strip(sc["args"][0]) if sc.get("k") == "Call" and sc["args"] else None
+        callee = None
+        if inner is not None and inner.get("k") in ("MethodCall", "Call") and self.depth < 2:
+            di = inner.get("inst", inner.get("def")) if inner["k"] == "MethodCall" else strip(inner["f"]).get("inst", strip(inner["f"]).get("def"))
+            recv_ok = False
+            if inner["k"] == "MethodCall":
+                recv_ok = self.path_of(inner["recv"]) == "" and not inner["args"]
+            else:
+                recv_ok = len(inner["args"]) == 1 and self.path_of(inner["args"][0]) == ""
+            if di is not None and recv_ok:
+                callee = next((f for f in self.c.fns if f["def"] == di and f is not self.fn), None)
+        if callee is None:
+            self.effect(m)
+            return inp
+        sub = Guard(callee, self.f, self.w, self.integer)
+        sub.depth = self.depth + 1
+        try:
+            sub.run_value(callee["body"], inp)
+        except Unclassified as e:
+            from .facts import walk as _walk
+            numeric = False
+            for y in _walk(callee["body"]):
+                if y.get("k") == "Binary" and y["op"] in ("<", "<=", ">", ">=") and any(z.get("k") == "Path" and z.get("name") == "self" for z in _walk(y)):
+                    numeric = True
+                if y.get("k") == "MethodCall" and y["name"] in ("is_negative", "is_sign_negative", "is_positive", "contains", "is_zero") and any(z.get("k") == "Path" and z.get("name") == "self" for z in _walk(y)):
+                    numeric = True
+            if numeric:
+                raise Unclassified("validation helper `%s`: %s" % (callee["d"]["name"], e))
+            # a helper without range tests on the parameters (it compiles a regex, fills a cache): its own fallible calls
+            # are the opaque sub-checks
+            self.effect(callee["body"])
+            for y in _walk(callee["body"]):
+                if y.get("k") == "Field" and (self.c.ty(y.get("t")) or "") == "bool":
+                    py = sub.path_of(y)
+                    if py is not None:
+                        self.opaque.add("state:" + py)
+                if y.get("k") == "Field":
+                    ty = self.c.ty(y.get("t")) or ""
+                    if "Option<" in ty and not any(x in ty for x in ("Option<f32>", "Option<f64>", "Option<usize>", "Option<u64>", "Option<F>", "Option<i32>", "Option<u32>")):
+                        py = sub.path_of(y)
+                        if py is not None:
+                            self.opaque.add("state:" + py)
+                if y.get("k") == "MethodCall" and y["name"] in ("is_none", "is_some") and not y["args"]:
+                    py = sub.path_of(y["recv"])
+                    ty = self.c.ty(peel_refs(y["recv"]).get("t")) or ""
+                    if py is not None and "Option<" in ty and not any(x in ty for x in ("Option<f32>", "Option<f64>", "Option<usize>", "Option<u64>", "Option<F>", "Option<i32>", "Option<u32>")):
+                        self.opaque.add("state:" + py)
+            return inp
+        self.err = self.err.union(sub.err)
+        self.relations |= sub.relations
+        self.opaque |= sub.opaque
+        self.lossy_tests |= sub.lossy_tests
+        for p_, t_ in sub.paths_seen.items():
+            self.paths_seen.setdefault(p_, t_)
+        return inp.minus(sub.err)
 
     def effect(self, n):
         """A statement that is not a guard: record `?` on fallible calls as opaque sub-checks."""
@@ -653,6 +717,32 @@ def rule_same(ctx):
         if len(chk) == 1 and not other and not assigns and proj_ok and any(k(t.val) == k(chk[0].val) for t in tries):
             res.ok()
             res.sample({"check": key, "shape": "self.check_ref()?; Ok(<projection of self>)"})
+            shared = None
+        else:
+            shared = None
+            PLUMBING = ("branch", "from_residual", "Ok", "Err", "Some", "map_or", "map_or_else", "map", "ok_or", "ok_or_else", "and_then", "into", "from", "map_err", "is_some", "is_none", "unwrap_or")
+            if not chk and other and not assigns:
+                # check and check_ref both take their verdict from the same private validation helper(s) and test nothing else
+                trr0 = Tracer(fns["check_ref"]).run()
+                ref_calls = sorted(set(e.name for e in trr0.events if e.kind == "call" and e.name not in PLUMBING))
+                own_calls = sorted(set(e.name for e in other if e.name not in PLUMBING))
+                from .facts import walk as _walk
+                own_tests = [y for y in _walk(fn["body"]) if y.get("k") == "Binary" and y["op"] in ("<", "<=", ">", ">=", "==", "!=")]
+                oks = [e for e in calls if e.name == "Ok" and e.args]
+                proj2 = False
+                for e in oks:
+                    t = as_term(e.args[0])
+                    while t is not None and (t.op.startswith("proj:") or t.op.startswith("field:")) and t.args:
+                        t = as_term(t.args[0])
+                    proj2 = proj2 or (t is not None and t.op == "param:self")
+                proj3 = "param:self" in k(tr.result)    # `self.0.validate().map(move |()| self.0)`: the projection sits in a closure
+                if own_calls and own_calls == ref_calls and not own_tests and (proj_ok or proj2 or proj3):
+                    shared = own_calls
+        if shared:
+            res.ok()
+            res.sample({"check": key, "shape": "check and check_ref propagate the same validation helper(s) %s with `?`" % shared})
+        elif shared is None and len(chk) == 1 and not other and not assigns and proj_ok and any(k(t.val) == k(chk[0].val) for t in tries):
+            pass
         else:
             res.violate("%s : shape" % key,
                         "check is not `self.check_ref()?; Ok(<projection of self>)` (check_ref calls=%d, other calls=%s, writes=%d, returns projection=%s)" % (
@@ -710,6 +800,22 @@ def rule_dom(ctx):
         calls = [e for e in tr.events if e.kind == "call" and e.name not in ("branch", "from_residual")]
         chk = [e for e in calls if e.name in ("check_ref", "check") and e.recv is not None and k(e.recv) == "param:self"]
         if not chk:
+            # the check may sit in a private helper of the same crate that receives self and the work as a closure
+            # (`with_checked(self, |p| p.fit(ds))`): expand such helpers in place and look again
+            tr2 = Tracer(fn, inline=ctx.inliner()).run()
+            calls2 = [e for e in tr2.events if e.kind == "call" and e.name not in ("branch", "from_residual")]
+            chk2 = [e for e in calls2 if e.name in ("check_ref", "check") and e.recv is not None and k(e.recv) == "param:self"]
+            if chk2:
+                c0 = chk2[0]
+                tried = [e for e in tr2.events if e.kind == "try" and k(e.val) == k(c0.val)]
+                direct_before = [e for e in calls2 if e.order < c0.order and e.closure_depth == 0]
+                direct_after = [e for e in calls2 if e.order > c0.order and e.closure_depth == 0]
+                if tried and not direct_before and all(e.order > tried[0].order for e in direct_after):
+                    res.ok()
+                    res.sample({"entry": key, "shape": "a private helper checks self first (`check_ref()?`) and only then runs the work it was handed as a closure"})
+                else:
+                    res.undecided("%s : helper-shape" % key, "the check sits in a helper whose shape (check first, then the closure) could not be confirmed", fn_loc(fn))
+                continue
             res.violate("%s : no-check" % key, "entry point on an unchecked builder never calls check_ref/check on self", fn_loc(fn))
             continue
         c0 = chk[0]
@@ -974,9 +1080,32 @@ def rule_carry(ctx):
         key = fn_key(fn)
         params = set(b["local"] for p_ in fn["params"][1:] for b in pat_bindings(p_))
 
+        destructured = {}     # local bound by `let Valid { n_clusters, covar_type: ct, .. } = self.0;` -> field name
+        for y in walk(fn["body"]):
+            if y.get("k") == "LetStmt" and y.get("init") is not None and y["pat"].get("k") in ("Struct", "TupleStruct"):
+                i0 = peel_refs(y["init"])
+                t0 = i0
+                while t0.get("k") == "Field":
+                    t0 = peel_refs(t0["e"])
+                if t0.get("k") == "Path" and t0.get("name") == "self":
+                    pats = [y["pat"]]
+                    while pats:
+                        q = pats.pop()
+                        if q.get("k") == "Struct":
+                            for f_ in q["fields"]:
+                                bs_ = list(pat_bindings(f_["pat"]))
+                                if f_["pat"].get("k") == "Bind" and len(bs_) == 1:
+                                    destructured[bs_[0]["local"]] = f_["name"]
+                                else:
+                                    pats.append(f_["pat"])
+                        elif q.get("k") == "TupleStruct":
+                            pats.extend(q.get("pats") or [])
+
         def provenance(e):
             """('self', field) / ('arg', None) / ('other', text)"""
             e0 = peel_refs(e)
+            if e0.get("k") == "Path" and e0.get("local") in destructured:
+                return ("self", destructured[e0["local"]])
             names = []
             t = e0
             while t.get("k") == "Field":
